@@ -275,6 +275,13 @@ impl<B: Buf> quic::SendStream<B> for SimSend<B> {
             return Poll::Ready(Ok(()));
         };
         let n = data.remaining();
+        if n > 0 && g.stream(self.id).pipe_w(self.side).unwrap().written.len() > g.cfg.max_stream_bytes {
+            let max = g.cfg.max_stream_bytes;
+            push_misuse(&mut g.sides[self.side].misuse, format!("stream {}: runaway writer (more than {max} bytes written)", self.id));
+            return Poll::Ready(Err(StreamErrorIncoming::ConnectionErrorIncoming {
+                connection_error: ConnectionErrorIncoming::InternalError("runaway writer".into()),
+            }));
+        }
         if n > 0 {
             let policy = if g.focus(self.id) { g.cfg.write } else { Policy::Whole };
             let accept = match policy {
@@ -436,6 +443,7 @@ pub struct SimRecv {
 }
 
 const MAX_DELAYS_PER_PIPE: usize = 2;
+const MAX_MARKS_AHEAD: usize = 32;
 
 impl SimRecv {
     fn new(net: &Net, side: usize, id: u64) -> Self {
@@ -454,12 +462,12 @@ fn read_cut_candidates(avail: usize, delivered: usize, marks: &[usize], dense_li
         k.extend(1..avail);
     } else {
         k.extend([1, 2, avail - 1]);
-        for &m in marks {
-            if m > delivered {
-                let rel = m - delivered;
-                for d in [rel.saturating_sub(1), rel, rel + 1] {
-                    k.push(d);
-                }
+        // the nearest write boundaries ahead (bounded: a runaway writer must not blow up the branching)
+        let start = marks.partition_point(|m| *m <= delivered); // marks are pushed in write order (ascending)
+        for &m in marks[start..].iter().take(MAX_MARKS_AHEAD) {
+            let rel = m - delivered;
+            for d in [rel.saturating_sub(1), rel, rel + 1] {
+                k.push(d);
             }
         }
     }
